@@ -1,7 +1,7 @@
 SPECIFICATION Spec
 CONSTANTS
-    MaxPts = 3
-    K = 1
+    MaxPts = 4
+    K = 2
     BufSize = 2
     Topos <- MCTopos
     StopKinds <- BothKinds
@@ -22,3 +22,6 @@ INVARIANTS
     NoCollectOnClosed
     StoppedMeansQuiet
 CHECK_DEADLOCK TRUE
+PROPERTIES
+    StopCompletes
+    AllGoroutinesExit
